@@ -1,11 +1,11 @@
 ---- MODULE RegridEmit ----
 EXTENDS Regrid, Json, IOUtils
 WithField(S) == {[c |-> c, field |-> SrcField(c), smask |-> [p \in 1..NS(c) |-> SMask(c, p)],
-                  mesh |-> IF c.su = "umixed" THEN [pts |-> MeshPts, cells |-> MeshCells] ELSE [pts |-> <<>>, cells |-> <<>>],
-                  tmask |-> [p \in 1..N(c.dst) |-> TMask(c, p)]] : c \in S}
+                  mesh |-> IF c.su = "umixed" \/ c.tu = "umixed" THEN [pts |-> MeshPts, cells |-> MeshCells] ELSE [pts |-> <<>>, cells |-> <<>>],
+                  tmask |-> [p \in 1..NT(c) |-> TMask(c, p)]] : c \in S}
 Out == CASE IOEnv.WHAT = "nearest" -> SetToSeq(WithField(NearestCases(0)))
          [] IOEnv.WHAT = "identity" -> SetToSeq(WithField(IdCases(0)))
-         [] IOEnv.WHAT = "mesh" -> SetToSeq(WithField(MeshCases(0)))
+         [] IOEnv.WHAT = "mesh" -> SetToSeq(WithField(MeshCases(0) \cup MeshTargetCases(0)))
          [] IOEnv.WHAT = "linear" -> SetToSeq(WithField(LinearCases(0)))
 (* between layouts of one grid nearest-neighbour regridding is the identity (theorem on the spec) *)
 ASSUME IOEnv.WHAT = "identity" =>
